@@ -518,6 +518,244 @@ Proof.
     rewrite <- Permutation_rev; reflexivity.
 Qed.
 
+(* ---------------------------------------------------------------- clone, ==, drain, into_iter *)
+
+Lemma nd_take_order_or m : nd (take_order_or m).
+Proof. apply nd_pure. intros s. unfold take_order_or, bind, get. cbn. auto. Qed.
+#[local] Hint Resolve nd_take_order_or : nd.
+
+Lemma nd_clone_elems l : forall acc, nd (clone_elems l acc).
+Proof. induction l as [|e l IH]; intros acc; cbn [clone_elems]; nds. Qed.
+#[local] Hint Resolve nd_clone_elems : nd.
+
+Lemma ndr_hb_clone t : hbc t -> ndr hbc (hb_clone t).
+Proof.
+  intros Ht. unfold hb_clone. destruct (_ =? 1); [apply ndr_ret, hbc_new|].
+  apply nd_bind; [apply nd_tick_alloc|intros _]. apply nd_bind; [apply nd_take_order_or|intros l].
+  apply nd_bind; [apply ndr_on_unwind, nd_clone_elems|intros _; apply ndr_ret, Ht].
+Qed.
+
+Lemma ndr_and_carry : forall l t, hbc t -> ndr hbc (and_carry c t l).
+Proof.
+  induction l as [|e l IH]; intros t Ht; cbn [and_carry]; [apply ndr_ret, Ht|].
+  eapply ndr_bind; [|intros t' Ht'; apply IH, Ht'].
+  apply ndr_on_unwind. apply nd_bind; [apply nd_tick_hash|intros _]. apply nd_bind; [apply nd_cb|intros _].
+  apply nd_bind; [apply ndr_on_unwind, nd_cb|intros _]. apply ndr_hb_insert, Ht.
+Qed.
+
+Lemma nd_cursor_view o : nd (cursor_view o).
+Proof. unfold cursor_view. nds. Qed.
+#[local] Hint Resolve nd_cursor_view : nd.
+
+(* C06: clone() drops nothing (the clones it makes live in the new map) *)
+Lemma nd_rt_clone : nd (rt_clone c).
+Proof.
+  unfold rt_clone. eapply ndr_bind; [apply ndr_getm|]. intros t Ht. apply nd_bind; [apply nd_getlo|intros o].
+  eapply ndr_bind; [apply ndr_hb_clone, Ht|]. intros nt Hnt. apply nd_bind; [apply nd_cursor_view|intros l].
+  eapply ndr_bind; [apply ndr_and_carry, Hnt|]. intros nt' _. apply nd_ret.
+Qed.
+
+(* C06: == drops nothing *)
+Lemma nd_map_equal other : nd (map_equal other).
+Proof.
+  unfold map_equal. apply nd_bind; [apply nd_get|intros s0]. destruct (negb _); [apply nd_ret|].
+  eapply ndr_bind; [apply ndr_rt_iter|]. intros l _.
+  induction l as [|x l IH]; [apply nd_ret|]. apply nd_bind; [apply nd_tick_hash|intros _].
+  destruct (rt_find_pure other _) as [[im e']|]; [|apply nd_ret]. destruct (_ =? _); [exact IH|apply nd_ret].
+Qed.
+
+(* the order in which drain() / into_iter() yield: reads the tables only *)
+Lemma rp_drain_order : rp (fun _ => True) drain_order.
+Proof.
+  intros s. unfold drain_order, bind, getm, getlo, gets, take_order, get. cbn.
+  destruct (valid_order _ _); cbn; [|exact I].
+  unfold cursor_view. destruct (lo (s_rt s)) as [o|]; cbn.
+  - destruct (_ <? _); cbn; [exact I|]. unfold debug_check. destruct (_ =? _); cbn; auto.
+  - auto.
+Qed.
+
+(* C06: drain(), consumed for j items and then dropped: the first j elements of its order are
+   handed to the caller, every other element - in either table - is dropped exactly once; the
+   map is left empty *)
+Theorem map_drain_ledger j s :
+  lite s ->
+  wpp (map_drain j false)
+      (fun out s' => exists l, out = map elem3 (firstn (N.to_nat j) l) /\
+         lite s' /\ elems (s_rt s') = [] /\
+         dks s' = rev (map ekid (skipn (N.to_nat j) l)) ++ dks s /\
+         dvs s' = rev (map ev (skipn (N.to_nat j) l)) ++ dvs s) TT s.
+Proof.
+  intros Hs. unfold map_drain. apply wpp_bind. unfold getm, gets, wpp at 1. cbn.
+  apply wpp_bind. unfold getlo, gets, wpp at 1. cbn.
+  apply wpp_bind. eapply wpp_mono; [apply rp_wpp, rp_drain_order|]. cbn beta. intros l s1 (Hr1 & Hk1 & Hv1 & _).
+  apply wpp_bind. unfold setlo, modify, wpp at 1. cbn.
+  apply wpp_bind. apply wpp_bind. eapply wpp_mono; [apply drop_elems_ledger|]. cbn beta. intros _ s2 (Hr2 & Hk2 & Hv2).
+  apply wpp_bind.
+  assert (Hfree : forall b s0, wpp (when b tick_free) (fun _ s' => s_rt s' = s_rt s0 /\ dks s' = dks s0 /\ dvs s' = dvs s0) TT s0).
+  { intros b s0. destruct b; cbn [when]; [|apply wpp_ret; auto]. unfold tick_free, tick, modify, wpp, dks, dvs. cbn. auto. }
+  eapply wpp_mono; [apply Hfree|]. cbn beta. intros _ s3 (Hr3 & Hk3 & Hv3).
+  unfold setm, modify, bind, ret, wpp. cbn. exists l. split; [reflexivity|].
+  unfold lite, elems, dks, dvs in *. cbn. rewrite Hr3, Hr2. cbn. rewrite map_to_list_empty. cbn.
+  split; [split; [apply hbc_empty|exact I]|]. split; [reflexivity|]. rewrite Hk3, Hk2, Hv3, Hv2. cbn. rewrite Hk1, Hv1. auto.
+Qed.
+
+(* C06: into_iter(), consumed for j items and then dropped: the same, and the map is gone *)
+Theorem map_into_iter_ledger j s :
+  lite s ->
+  wpp (map_into_iter j)
+      (fun out s' => exists l, out = map elem3 (firstn (N.to_nat j) l) /\
+         lite s' /\ elems (s_rt s') = [] /\
+         dks s' = rev (map ekid (skipn (N.to_nat j) l)) ++ dks s /\
+         dvs s' = rev (map ev (skipn (N.to_nat j) l)) ++ dvs s) TT s.
+Proof.
+  intros Hs. unfold map_into_iter. apply wpp_bind. unfold getm, gets, wpp at 1. cbn.
+  apply wpp_bind. unfold getlo, gets, wpp at 1. cbn.
+  apply wpp_bind. eapply wpp_mono; [apply rp_wpp, rp_drain_order|]. cbn beta. intros l s1 (Hr1 & Hk1 & Hv1 & _).
+  apply wpp_bind. eapply wpp_mono; [apply drop_elems_ledger|]. cbn beta. intros _ s2 (Hr2 & Hk2 & Hv2).
+  apply wpp_bind.
+  assert (Hfree : forall b s0, wpp (when b tick_free) (fun _ s' => s_rt s' = s_rt s0 /\ dks s' = dks s0 /\ dvs s' = dvs s0) TT s0).
+  { intros b s0. destruct b; cbn [when]; [|apply wpp_ret; auto]. unfold tick_free, tick, modify, wpp, dks, dvs. cbn. auto. }
+  eapply wpp_mono; [apply Hfree|]. cbn beta. intros _ s3 (Hr3 & Hk3 & Hv3).
+  apply wpp_bind.
+  assert (Hhf : forall t0 s0, wpp (hb_free t0) (fun _ s' => s_rt s' = s_rt s0 /\ dks s' = dks s0 /\ dvs s' = dvs s0) TT s0).
+  { intros t0 s0. unfold hb_free. apply Hfree. }
+  eapply wpp_mono; [apply Hhf|]. cbn beta. intros _ s4 (Hr4 & Hk4 & Hv4).
+  unfold setlo, setm, modify, bind, wpp. cbn. exists l. split; [reflexivity|].
+  unfold lite, elems, dks, dvs in *. cbn. rewrite map_to_list_empty. cbn.
+  split; [split; [apply hbc_new|exact I]|]. split; [reflexivity|]. rewrite Hk4, Hk3, Hk2, Hv4, Hv3, Hv2, Hk1, Hv1. auto.
+Qed.
+
+(* ---------------------------------------------------------------- retain: conservation
+   Whatever retain does to the map, the key objects (and, when the predicate does not modify
+   values, the value objects) are conserved: each is afterwards either still stored or in the
+   ledger, exactly once.  [f] projects the object out of an element. *)
+Lemma wpp_gets' {A} (g : st -> A) (Q : A -> st -> Prop) (U : panic -> st -> Prop) s : Q (g s) s -> wpp (gets g) Q U s.
+Proof. exact (fun H => H). Qed.
+
+Section Conserve.
+Context (f : elem -> N) (dl : st -> list N).
+Definition heldf (s : st) : list N := map f (elems (s_rt s)).
+Definition cons_ok (s s' : st) : Prop := lite s' /\ dl s' ++ heldf s' ≡ₚ dl s ++ heldf s.
+Definition kcons {A} (m : M' A) : Prop := forall s, lite s -> wpp m (fun _ s' => cons_ok s s') TT s.
+
+Lemma cons_refl s : lite s -> cons_ok s s.
+Proof. unfold cons_ok. auto. Qed.
+Lemma cons_trans s1 s2 s3 : cons_ok s1 s2 -> cons_ok s2 s3 -> cons_ok s1 s3.
+Proof. unfold cons_ok. intros [_ H1] [H2 H3]. split; [exact H2|]. rewrite H3. exact H1. Qed.
+Lemma kcons_ret {A} (a : A) : kcons (ret a).
+Proof. intros s H. apply wpp_ret, cons_refl, H. Qed.
+Lemma kcons_bind {A B} (m : M' A) (g : A -> M' B) : kcons m -> (forall x, kcons (g x)) -> kcons (bind m g).
+Proof.
+  intros Hm Hg s H. apply wpp_bind. eapply wpp_mono; [apply Hm, H|]. cbn. intros x s1 H1.
+  eapply wpp_mono; [apply Hg; apply H1|]. cbn. intros y s2 H2. eapply cons_trans; eauto.
+Qed.
+Lemma kcons_when b (m : M' unit) : kcons m -> kcons (when b m).
+Proof. intros H. destruct b; [exact H|apply kcons_ret]. Qed.
+Lemma kcons_iterM {A} (g : A -> M' unit) l : (forall a, kcons (g a)) -> kcons (iterM g l).
+Proof. intros Hg. induction l as [|a l IH]; cbn [iterM]; [apply kcons_ret|apply kcons_bind; [apply Hg|intros _; exact IH]]. Qed.
+End Conserve.
+
+Lemma perm_remove_list k (l : list elem) x :
+  NoDup (map ek l) -> lookup_list k l = Some x -> l ≡ₚ x :: remove_list k l.
+Proof.
+  induction l as [|y l IH]; intros Hnd Hl; [discriminate|]. cbn [map] in Hnd. apply NoDup_cons in Hnd as [Hy Hnd].
+  unfold lookup_list in Hl. cbn [List.find] in Hl. unfold remove_list. cbn [List.filter].
+  destruct (N.eqb_spec (ek y) k) as [Hk|Hk]; cbn [negb].
+  - injection Hl as ->. apply Permutation_cons; [reflexivity|].
+    fold (remove_list k l). symmetry. clear IH.
+    assert (Hall : forall z, z ∈ l -> ek z <> k).
+    { intros z Hz Hzk. apply Hy. rewrite Hk, <- Hzk. apply elem_of_list_fmap. eauto. }
+    unfold remove_list. induction l as [|z l IHl]; [reflexivity|]. cbn [List.filter].
+    destruct (N.eqb_spec (ek z) k) as [Hzk|Hzk]; cbn [negb].
+    + exfalso. apply (Hall z); [left|exact Hzk].
+    + apply Permutation_cons; [reflexivity|]. apply IHl.
+      * cbn [map] in Hy. intros Hin. apply Hy. right. exact Hin.
+      * cbn [map] in Hnd. apply NoDup_cons in Hnd as [_ Hnd]. exact Hnd.
+      * intros w Hw. apply Hall. right. exact Hw.
+  - fold (lookup_list k l) in Hl. fold (remove_list k l). rewrite (IH Hnd Hl) at 1. apply Permutation_swap.
+Qed.
+
+(* rt_erase: the element leaves the table and enters the ledger *)
+Lemma kcons_rt_erase_k im k : kcons ekid dks (rt_erase c im k).
+Proof.
+  intros s [Hm Hl]. unfold rt_erase. destruct im.
+  - apply wpp_bind. unfold getm, gets, wpp at 1. cbn. set (t := main (s_rt s)) in *.
+    unfold hb_remove. destruct (hel t !! k) as [x|] eqn:E; [|exact I].
+    apply wpp_bind. apply wpp_bind.
+    assert (Htt : rp (fun _ => True) take_tomb).
+    { intros s0. unfold take_tomb, bind, get. cbn. destruct (s_tomb s0 =? 0); cbn; auto. }
+    eapply wpp_mono; [apply rp_wpp, Htt|]. cbn beta. intros b s1 (Hr1 & Hk1 & Hv1 & _).
+    unfold ret, setm, modify, bind, drop_elem, drop_key, drop_val, tick, wpp. cbn.
+    split; [split; [eapply hbc_del; eauto|rewrite Hr1; exact Hl]|].
+    unfold heldf, elems, dks in *. cbn. rewrite Hr1, Hk1. fold t. rewrite <- (map_to_list_delete (hel t) k x E). cbn.
+    rewrite !map_app. cbn. apply Permutation_middle.
+  - apply wpp_bind. unfold getlo, gets, wpp at 1. cbn. destruct (lo (s_rt s)) as [o|] eqn:Eo; [|exact I].
+    apply wpp_bind. unfold old_take. apply wpp_bind. unfold getlo, gets, wpp at 1. cbn. rewrite Eo.
+    destruct (lookup_list k (orem o)) as [x|] eqn:E; [|exact I].
+    cbn [oldc] in Hl. destruct Hl as (Hi & Hc & Hnd).
+    pose proof (perm_remove_list k (orem o) x Hnd E) as Hp.
+    pose proof (remove_list_nodup k (orem o) Hnd) as Hnd'.
+    apply lookup_list_Some in E as [Hin Hk]. pose proof (remove_list_length k (orem o) x Hnd Hin Hk) as Hlen.
+    assert (Hfin : forall i, i = ocnt o - 1 ->
+      wpp (setlo (Some (Old (oB o) (remove_list k (orem o)) i (ocnt o - 1))) ;;; ret x)
+          (fun a s1 => wpp (drop_elem a) (fun _ s' => cons_ok ekid dks s s') TT s1) TT s).
+    { intros i ->. unfold setlo, modify, bind, ret, drop_elem, drop_key, drop_val, tick, wpp. cbn.
+      split; [split; [exact Hm|cbn; split; [lia|split; [lia|exact Hnd']]]|].
+      unfold heldf, elems, dks. cbn. rewrite Eo. rewrite Hp at 2. rewrite !map_app. cbn [map app].
+      rewrite !app_assoc. apply Permutation_middle. }
+    destruct (czst c); [apply Hfin; reflexivity|]. destruct (oit o =? 0); [exact I|apply Hfin; lia].
+Qed.
+
+
+Lemma kcons_set_value_k im k v : kcons ekid dks (set_value im k v).
+Proof.
+  intros s [Hm Hl]. unfold set_value. destruct im.
+  - apply wpp_bind. unfold getm, gets, wpp at 1. cbn. set (t := main (s_rt s)) in *.
+    destruct (hel t !! k) as [e|] eqn:E; [|exact I].
+    unfold setm, modify, wpp. cbn. split; [split; [eapply hbc_upd; eauto|exact Hl]|].
+    unfold heldf, elems, dks. cbn. fold t. apply Permutation_app_head. rewrite !map_app. apply Permutation_app_tail.
+    rewrite <- (map_to_list_delete (hel t) k e E).
+    rewrite <- (insert_delete_insert (hel t)). rewrite map_to_list_insert by apply lookup_delete. reflexivity.
+  - apply wpp_bind. unfold getlo. apply wpp_gets'. destruct (lo (s_rt s)) as [o|] eqn:Eo; [|exact I].
+    destruct (lookup_list k (orem o)) as [e|] eqn:E; [|exact I].
+    unfold setlo, modify, wpp, cons_ok, lite. cbn [set_rt s_rt main lo]. cbn [oldc] in Hl. destruct Hl as (Hi & Hc & Hnd).
+    split; [split; [exact Hm|cbn [oldc orem oit ocnt]; rewrite replace_list_length, replace_list_keys; auto]|].
+    unfold heldf, elems, dks. cbn [set_rt s_rt main lo orem oit ocnt oB s_log l_dk]. rewrite Eo. apply Permutation_app_head. rewrite !map_app. apply Permutation_app_head.
+    (* replacing an element by one with the same key object keeps the key objects *)
+    match goal with |- ?a ≡ₚ ?b => assert (Heq : a = b); [|rewrite Heq; reflexivity] end. unfold replace_list. rewrite List.map_map. apply List.map_ext_in. intros a Ha. cbn [ek].
+    destruct (N.eqb_spec (ek a) k) as [Hak|Hak]; [|reflexivity]. cbn [ekid].
+    apply elem_of_list_In in Ha. rewrite (lookup_list_nodup k (orem o) a Hnd Ha Hak) in E. injection E as ->. reflexivity.
+Qed.
+
+Lemma kcons_rp {A} (P : A -> Prop) (m : M' A) : rp P m -> kcons ekid dks m.
+Proof.
+  intros H s Hl. specialize (H s). unfold wpp. destruct (m s) as [a s'|p s'|x]; [|exact I|exact I].
+  destruct H as (Hr & Hk & _). unfold cons_ok, lite, heldf in *. rewrite Hr, Hk. auto.
+Qed.
+Lemma rp_cb : rp (fun _ => True) cb.
+Proof.
+  intros s. unfold cb, tick, bind, modify, get, dks, dvs. cbn.
+  destruct (s_fuse s) as [n|]; cbn; [destruct (n =? 0); cbn|]; auto.
+Qed.
+Lemma rp_rt_iter : rp (fun _ => True) rt_iter.
+Proof.
+  intros s. unfold rt_iter, bind, getm, getlo, gets, take_order, get. cbn.
+  destruct (valid_order _ _); cbn; [|exact I]. destruct (lo (s_rt s)) as [o|]; cbn; [|auto].
+  destruct (_ <? _); cbn; auto.
+Qed.
+
+(* C06: retain drops exactly what it removes: every key object of the map is afterwards either
+   still stored or in the ledger, exactly once (whatever the predicate and its panics did up to
+   a completed call) *)
+Theorem map_retain_conserves_keys keep delta : kcons ekid dks (map_retain c keep delta).
+Proof.
+  unfold map_retain. apply kcons_bind; [apply (kcons_rp _ _ rp_rt_iter)|]. intros l.
+  apply kcons_bind; [|intros _; apply kcons_ret]. apply kcons_iterM. intros x.
+  apply kcons_bind; [apply (kcons_rp _ _ rp_cb)|]. intros _.
+  apply kcons_bind; [apply kcons_when, kcons_set_value_k|]. intros _.
+  apply kcons_when, kcons_rt_erase_k.
+Qed.
+
 End Ledger.
 
 (* the invariant of the development provides what the ledger analysis needs *)
